@@ -420,3 +420,18 @@ Example C08_conv_hyps_nontrivial :
   snd (bind_task eps0 (run eps0 empty_cache [ENode node1; EPG pg2; EPod pod_pending; EPod pod_pending2]) 2 1 1 true) = RDone.
 Proof. exact conv_hyps_nontrivial. Qed.
 Print Assumptions C08_conv_hyps_nontrivial.
+
+(* --- resync attempts whose GET fails (round 6): retried without bound; repair does not depend
+       on how many attempts failed before the one that succeeds --- *)
+Theorem C08_failed_get_keeps_everything : forall eps c (A : gset positive),
+  Inv2 eps c -> QueuedA eps A c -> Cover c ->
+  Inv2 eps (drain_resync_allfail c) /\ QueuedA eps A (drain_resync_allfail c) /\ Cover (drain_resync_allfail c).
+Proof. exact allfail_keeps. Qed.
+Print Assumptions C08_failed_get_keeps_everything.
+
+Theorem C08_repaired_after_failed_attempts : forall eps c (A : gset positive) n,
+  Inv2 eps c -> QueuedA eps A c -> Cover c ->
+  let c' := drain_resync eps (Nat.iter n drain_resync_allfail c) in
+  Inv2 eps c' /\ (forall i t, c_heap c' !! i = Some t -> synced_at eps c' i t \/ i ∈ A) /\ Cover c'.
+Proof. exact repaired_after_failed_attempts. Qed.
+Print Assumptions C08_repaired_after_failed_attempts.
